@@ -17,7 +17,15 @@ STRENGTHENED = {
     "C13_5": "long frames (payload > 128 / > 255 bytes)", "C13_6": "free pauses (up to 400 s) between segments", "C14_5": "loss as EOF in the middle of a frame",
     "C16_5": "eleventh message sent with each predefined policy object", "C16_6": "send_with_header() on a socket that is not open",
     "C06_6": "verdict independent of earlier frames (validate twice; damaged copy behind the intact frame); process-wide state reset per path",
-    "C19_5": "free zone / AC names; str.strip modelled", "C15_6": "shutdown racing a handshake answer at loop-turn granularity (also exposed KF-C15-2)",
+    "C19_5": "free zone / AC names; str.strip modelled",
+    "C02_7": "AT4 group poll as an internal request whose write fails", "C03_8": "names up to the full field width (also ending in a two-byte character)",
+    "C04_7": "two-call histories on a two-AC system (timer frames); process-state reset covers in-place buffers", "C04_8": "two calls held over an outage (same zone / other zone)",
+    "C05_7": "a report with another record stride decoded earlier by the same decoder", "C06_8": "six damaged frames in a row, one per connection",
+    "C07_8": "thirty refusals in a row before the console accepts again", "C08_8": "AirTouch 5 without zones", "C10_7": "complete report, partial report, the same complete report",
+    "C11_8": "last reported AT4 mode free for set-point requests", "C12_7": "one callback in both roles, withdrawn from one", "C12_8": "unsubscribe while the handler is suspended in a held-up write",
+    "C13_8": "byte-identical frames in a row (same packet id)", "C14_7": "reconnection in the middle of group silence", "C14_8": "unanswered refresh followed by another loss",
+    "C15_7": "init() again while the old connect is still in flight", "C15_8": "closing the transport takes 50 ms", "C16_8": "eleventh request through every public API call",
+    "C17_7": "free to/from addresses on unknown frames", "C18_7": "second search() on the same discoverer", "C19_8": "unsolicited report interleaved in the handshake of both consoles", "C15_6": "shutdown racing a handshake answer at loop-turn granularity (also exposed KF-C15-2)",
 }
 rows = []
 for name in sorted(os.listdir('/verif/seeded')):
